@@ -73,6 +73,10 @@ EXPLANATION += (
     ' Round 6: readable names memoised on the tree object are keyed by level too (R-MEMO/key-complete on attribute-held caches).'
 )
 
+EXPLANATION += (
+    ' Round 7: the embedded marker table is enumerated from the tree searched (R-PROV/marker-table-follows-tree).'
+)
+
 RULE_TEXT = (
     "one obligation per consumed record key, per dataset, per record key "
     "of the codec, per constant relation; non-trivial when the key / "
@@ -705,6 +709,7 @@ def check_csv(ctx, produced):
     check_column_names(ctx, fi, bd)
     check_every_cell_has_row(ctx, bd)
     check_csv_tree_version(ctx)
+    check_marker_table_follows_tree(ctx)
     from ..rules.idioms import check_shared_mutable
     n_sm = 0
     for fi_ in ctx.db.iter_functions():
@@ -968,3 +973,66 @@ def check_csv_tree_version(ctx):
                   else 'is not the stored taxonomy')
                + f' ({fmt_term(t)[:100]}): levels that were back-filled '
                'into the records do not appear in the CSV')
+
+
+def check_marker_table_follows_tree(ctx):
+    """the marker table embedded in the output lists what was used: one
+    entry per parent of the tree the run searched (and the root).  It is
+    assembled from the marker cache, which may hold groups for parents the
+    run never searched (a level dropped for the run keeps its groups in the
+    cache): the parents listed therefore have to be enumerated from the
+    tree handed in, not from what the cache happens to contain."""
+    from ..core.defuse import Expander
+    from ..core import terms as T
+    db = ctx.db
+    rule = 'R-PROV/marker-table-follows-tree'
+    fi = db.fn('type_assignment.marker_cache_v2:serialize_markers')
+    ctx.touch(fi)
+    cfg = cfg_of(fi)
+    rd = rd_of(fi)
+    ex = Expander(fi)
+    rets = [n for n in cfg.nodes if n.kind == 'return' and n.id in rd.live
+            and isinstance(n.ast.value, ast.Name)]
+    if not rets:
+        raise AnalysisError('serialize_markers: returned table not found')
+    table = rets[0].ast.value.id
+    k = 0
+    for n in cfg.nodes:
+        st = n.ast
+        if not (n.id in rd.live and isinstance(st, ast.Assign)
+                and isinstance(st.targets[0], ast.Subscript)
+                and isinstance(st.targets[0].value, ast.Name)
+                and st.targets[0].value.id == table):
+            continue
+        key = ex.expand(st.targets[0].slice, n.id)
+        ok = True
+        why = ''
+        for alt in term_alts(key):
+            if alt[0] == 'const':
+                continue
+            from_tree = any(
+                x[0] == 'iterelem' and any(
+                    y == ('param', 'taxonomy_tree')
+                    for y in T.subterms(x[1]))
+                for x in T.subterms(alt))
+            from_cache = any(
+                x[0] == 'iterelem' and any(
+                    T.call_name(y) in ('File', 'loads')
+                    for y in T.subterms(x[1]) if y[0] == 'call')
+                and not any(y == ('param', 'taxonomy_tree')
+                            for y in T.subterms(x[1]))
+                for x in T.subterms(alt))
+            if from_cache or not from_tree:
+                ok = False
+                why = fmt_term(alt)[:70]
+        ctx.ob(rule, f'serialize_markers:entry#{k}', fi.loc(st), ok,
+               'entries are listed for the parents of the tree (and the '
+               'root)' if ok else
+               f'an entry of the embedded marker table is keyed by {why}: '
+               'not enumerated from the tree the run searched, so parents '
+               'the run never visited (a dropped level) are listed with '
+               'markers')
+        k += 1
+    if k == 0:
+        raise AnalysisError('serialize_markers: no entry of the table is '
+                            'stored')
